@@ -2,6 +2,7 @@ package profile
 
 import (
 	"fmt"
+	"github.com/aml-org/amf-custom-validator/internal/misc"
 	"github.com/aml-org/amf-custom-validator/internal/parser/path"
 	"strings"
 )
@@ -27,13 +28,24 @@ func (r ScalarSetRule) Negate() Rule {
 	return negated
 }
 
+// JSONValues returns the Rego string literal holding the JSON list of the arguments, e.g. "[\"a\",\"b\"]"
 func (r ScalarSetRule) JSONValues() string {
 	var acc []string
 	for _, v := range r.Argument {
-		acc = append(acc, fmt.Sprintf("\\\"%s\\\"", v))
+		acc = append(acc, misc.RegoString(v))
 	}
 
-	return fmt.Sprintf("[%s]", strings.Join(acc, ","))
+	return misc.RegoString(fmt.Sprintf("[%s]", strings.Join(acc, ",")))
+}
+
+// RegoValues returns the arguments as a comma separated list of Rego string literals
+func (r ScalarSetRule) RegoValues() string {
+	var acc []string
+	for _, v := range r.Argument {
+		acc = append(acc, misc.RegoString(v))
+	}
+
+	return strings.Join(acc, ",")
 }
 
 func (r ScalarSetRule) String() string {
